@@ -533,6 +533,51 @@ Fixpoint read_topics (v6 : bool) (conn_topic : str) (idx : list (Z * broker))
 Definition read_partitions (v6 : bool) (conn_topic : str) (r : md_response) : parts_result :=
   read_topics v6 conn_topic (broker_index (md_brokers r)) (md_topics r) [].
 
+(* Conn.ReadPartitions(topics...): which topic array goes out.  The argument is None for a
+   call without argument (nil variadic slice) and Some l for a non-nil slice l (possibly
+   empty: cfg.Topics... of an empty config, l[:0]).  The result is the topic array of the
+   metadata request: None = null array = "all topics" (the request writers encode a nil
+   slice as null and an empty non-nil slice as a zero-length array = "no topic"). *)
+Definition read_partitions_request (conn_topic : str) (arg : option (list str)) : option (list str) :=
+  match (match arg with None => [] | Some l => l end) with
+  | [] => match conn_topic with
+          | [] => None                 (* "topics needs to be explicitly nil-ed out" *)
+          | _ => Some [conn_topic]
+          end
+  | l => Some l
+  end.
+
+(* The broker's side (environment, served by the harness's peer from what is on the
+   wire): null array -> every topic; a list -> one entry per distinct name, the cluster's
+   topic or UNKNOWN_TOPIC_OR_PARTITION (3) without partitions; empty array -> none. *)
+Fixpoint str_mem (x : str) (l : list str) {struct l} : bool :=
+  match l with [] => false | y :: r => str_eqb y x || str_mem x r end.
+
+Fixpoint str_nodup (seen : list str) (l : list str) {struct l} : list str :=
+  match l with
+  | [] => []
+  | x :: r => if str_mem x seen then str_nodup seen r else x :: str_nodup (x :: seen) r
+  end.
+
+Definition cluster_topic (ts : list md_topic) (name : str) : md_topic :=
+  match find (fun t => str_eqb (mt_name t) name) ts with
+  | Some t => t
+  | None => {| mt_error := 3; mt_name := name; mt_internal := false; mt_parts := [] |}
+  end.
+
+Definition broker_metadata_answer (cluster : md_response) (req : option (list str)) : md_response :=
+  {| md_throttle := md_throttle cluster; md_brokers := md_brokers cluster; md_cluster := md_cluster cluster;
+     md_controller := md_controller cluster;
+     md_topics := match req with
+                  | None => md_topics cluster
+                  | Some names => map (cluster_topic (md_topics cluster)) (str_nodup [] names)
+                  end |}.
+
+(* the whole call against a broker holding [cluster] *)
+Definition read_partitions_call (v6 : bool) (conn_topic : str) (arg : option (list str))
+           (cluster : md_response) : parts_result :=
+  read_partitions v6 conn_topic (broker_metadata_answer cluster (read_partitions_request conn_topic arg)).
+
 (* ------------------------------------------------------------------------- *)
 (* client.go ConsumerOffsets                                                  *)
 
